@@ -258,6 +258,15 @@ func cmdCheck(args []string) int {
 					o.Err = fmt.Sprintf("case %s: no result (exit %d timeout=%v) %s %s", j.kase, o.ExitCode, o.TimedOut, o.Err, tail(o.Stderr, 1500))
 				}
 				results <- o
+				// a delivery that killed the child must not hide the rest of its batch: continue after it
+				for n := 0; o.Resume != nil && n < 200; n++ {
+					o = runTape(b, spec, o.Resume, "", childTimeout, spec.Race)
+					if o.Res == nil {
+						break
+					}
+					o.Res.Case = fmt.Sprintf("%s+resume%d", j.kase, n+1)
+					results <- o
+				}
 			}
 		}()
 	}
@@ -291,6 +300,9 @@ func cmdCheck(args []string) int {
 	// regression tapes: minimised schedules of defects found (and repaired) earlier are replayed
 	// in every check, judged like any other run, so that a returning defect is caught at once
 	regFiles, _ := filepath.Glob(filepath.Join(verifDir(), "regress", spec.Prop, "*.json"))
+	if os.Getenv("VERIF_NO_REGRESS") != "" {
+		regFiles = nil // evaluation of the seeded search on its own (tools/seedcheck.sh)
+	}
 	sort.Strings(regFiles)
 	for _, rf := range regFiles {
 		rb, err := os.ReadFile(rf)
